@@ -1,29 +1,20 @@
 import JL.Generated.Fns
-import JL.Lemmas.TieAuto
-import JL.Lemmas.TieB
+import JL.Lemmas.TieLoops
 import JL.Tie.to_number
 /-! tie: `abstract_min`, as translated from the crate's current source, is the model's function - for every input -/
 namespace JL.Tie
-open JL
+open JL JL.Lemmas.TieLoops
+set_option linter.unusedSimpArgs false  -- which of the listed facts are used depends on how the source is spelled
 
-/-- one step of the model's fold -/
-def minStep (acc : F64) (v : Json) : Option F64 :=
-  match JsOp.toNumber v with
-  | some n => some (if F64.lt n acc then n else acc)
-  | none => none
-
-theorem abstractMin_eq (items : List Json) : JsOp.abstractMin items = items.foldlM minStep (F64.inf false) := rfl
-
-/- Two ways of going over the operands are recognised: a `fold` over the converted operands whose accumulator is a `Result`
-(`TieB.fold_opt_tie`), and a `for` loop that returns at the first failing conversion (`TieAuto.for_opt`). Either way the body
-is arbitrary: that it performs one step of the model's fold is closed by `tie_close`. -/
+/- see `abstract_max`: whichever way the accumulation is spelled, `rs_loop_opt` brings it to `List.foldlM minStep` -/
 theorem abstract_min (items : List Json) : Gen.abstract_min items = JsOp.abstractMin items := by
+  unfold Gen.abstract_min
   rw [abstractMin_eq]
-  simp only [Gen.abstract_min]
-  first
-    | (refine Lemmas.TieB.fold_opt_tie _ _ minStep ?_ ?_ _ _ <;> intros <;>
-        tie_close [minStep, to_number] splitting JsOp.toNumber)
-    | (rw [Lemmas.TieAuto.for_opt minStep] <;> intros <;>
-        tie_close [minStep, to_number] splitting JsOp.toNumber List.foldlM)
+  rs_loop_opt minStep
+  intro a v
+  simp only [to_number, minStep]
+  cases JsOp.toNumber v with
+  | none => simp [rs]
+  | some n => cases h : F64.lt n a <;> simp [rs, F64.gt, h]
 
 end JL.Tie
